@@ -757,7 +757,7 @@ def run(ck):
         "a complete proof is owed post-hoc for transform-free programs and in recorded mode with MaxProofs = 1, at the default "
         "depth limit; recorded mode with MaxProofs > 1 (N81) and initial facts of recursive predicates in recorded mode (N80) "
         "are known findings: there only validity of the proofs not flagged partial is judged",
-        "proof identifiers are checked in the correspondence (content <-> id on every run), not modelled in Coq"])
+        "proof identifiers are checked in the correspondence (content <-> id on every run); their Coq model (coq/Prov/ProofId.v, hash as an argument) is not evaluated against the Go code"])
 
 
 def replay(ck, path):
@@ -788,10 +788,15 @@ META = {
             "Datalog model: check_proof accepts a tree exactly when it is a valid derivation (every inner node is an instance of "
             "its rule under the reported bindings with the premises in body order, leaves are base facts in the store, absence "
             "leaves are ground and genuinely absent, equalities and inequalities hold, no fact is its own ancestor); every proof "
-            "the reference explainer builds is accepted; for a transform-free program with ground negation every fact of the "
-            "(stratified) least model has an accepted proof in the explainer's table - proved with two steps as hypotheses "
-            "(the store judges a layer's negated atoms like the completed lower strata; the explainer's fuel suffices), see "
-            "proof_exists_partial. On every run generated programs (mutual recursion with cycle cuts, "
+            "the reference explainer builds is accepted; proof_exists: for a transform-free program without built-in comparison "
+            "atoms (positive atoms, negated atoms, = and != are covered) whose negated atoms are ground when reached (decidable "
+            "sufficient test prog_fine_b), a valid stratification and the store the engine model returns (= the stratified least "
+            "model, C01 strata_exact), every fact of the store has a proof that check_proof accepts and the reference explainer "
+            "returns one with its default fuel length St + 1 - no further hypotheses (strat_ok_from_valid and "
+            "explain_ref_fuel_suffices discharge the two steps that proof_exists_partial assumed). Identifiers: in a model of "
+            "edbProofID/absenceProofID/derivedProofID with the hash as argument the identifier is a function of (rule, fact, "
+            "sub-identifiers), the framing of the hashed parts is injective, and with an injective hash equal identifiers mean "
+            "equal content. On every run generated programs (mutual recursion with cycle cuts, "
             "closures, negation, (in)equalities, equalities that bind fresh variables, initial facts of derived predicates, "
             "let-transforms in recorded mode) are evaluated by the real engine with and without a MemoryRecorder; for every "
             "stored fact the proofs of provenance.Explain and BuildFromRecording (several MaxProofs / MaxDepth) are judged by "
@@ -799,5 +804,5 @@ META = {
             "content, or a store changed by the recorder are violations. Thorough adds an exhaustive 2-rule schema.",
     "note": "Trusted: Coq kernel + vm_compute; the Go-proof-to-tree conversion in harness/c15 and the hand-written Datalog model "
             "(tied to the engine by C01). After fixes F9, F9b, N16. Known findings: N80/N81 (recorded mode under cycles), N82 "
-            "(function application in a head: Explain panics), N83 (wildcard in a body atom, recorded mode), N17, F8. Identifiers are checked per run, not modelled.",
+            "(function application in a head: Explain panics), N83 (wildcard in a body atom, recorded mode), N17, F8. The identifier model (coq/Prov/ProofId.v) is not run against Go; the Go identifiers are checked per run (content <-> id).",
 }
